@@ -587,7 +587,7 @@ Section ModeProofs.
   Qed.
 
   Theorem cbc_decrypt_stream_eq iv chunks : length iv = 16 ->
-    cbc_decrypt_stream iv chunks = cbc_padding_decrypt D iv (concat chunks).
+    cbc_decrypt_stream iv chunks = sm4_cbc_padding_decrypt D iv (concat chunks).
   Proof.
     intros Hiv. unfold cbc_decrypt_stream, stream_all, cbc_init.
     destruct (run_good 16 true (cbc_dec_crypt D) len16 iv chunks ltac:(lia) cbc_dec_good Hiv)
@@ -595,7 +595,7 @@ Section ModeProofs.
     rewrite Hr, Hm. unfold cbc_decrypt_finish, buf_ok in *.
     unfold cbc_dec_crypt in Hc. rewrite Hpre, Nat.div_mul in Hc by lia.
     destruct (length (bbuf c) =? 16) eqn:Hb; cbn [negb].
-    - apply Nat.eqb_eq in Hb. unfold cbc_padding_decrypt. rewrite app_length, Hpre, Hb.
+    - apply Nat.eqb_eq in Hb. unfold sm4_cbc_padding_decrypt. rewrite app_length, Hpre, Hb.
       replace (k * 16 + 16 =? 0) with false by lia.
       replace ((k * 16 + 16) mod 16 =? 0) with true by lia.
       replace (k * 16 + 16 <? 16) with false by lia.
@@ -608,12 +608,14 @@ Section ModeProofs.
       + rewrite (cbc_dec_blocks_bloop k iv (pre ++ bbuf c)), bloop_prefix by lia.
         rewrite <- cbc_dec_blocks_bloop, Hc.
         destruct (cbc_decrypt_blocks D 1 (bst c) (bbuf c)) as [x block].
-        destruct ((nth 15 block 0 <? 1)%N || (16 <? nth 15 block 0)%N); reflexivity.
+        destruct ((nth 15 block 0 <? 1)%N || (16 <? nth 15 block 0)%N); [reflexivity|].
+        destruct (pad_bytes_ok (nth 15 block 0%N) block); reflexivity.
       + assert (k = 0) by (apply Nat.ltb_ge in Hk; lia). subst k. cbn [cbc_decrypt_blocks] in Hc.
         injection Hc as <- <-.
         destruct (cbc_decrypt_blocks D 1 iv (bbuf c)) as [x block].
-        destruct ((nth 15 block 0 <? 1)%N || (16 <? nth 15 block 0)%N); reflexivity.
-    - apply Nat.eqb_neq in Hb. unfold cbc_padding_decrypt. rewrite app_length, Hpre.
+        destruct ((nth 15 block 0 <? 1)%N || (16 <? nth 15 block 0)%N); [reflexivity|].
+        destruct (pad_bytes_ok (nth 15 block 0%N) block); reflexivity.
+    - apply Nat.eqb_neq in Hb. unfold sm4_cbc_padding_decrypt. rewrite app_length, Hpre.
       destruct (bbuf c) as [|x bb] eqn:Hbb.
       + specialize (Hemp eq_refl eq_refl). rewrite Hm, app_nil_r in Hemp. subst pre. cbn [length] in Hpre.
         replace k with 0 by lia. reflexivity.
@@ -1342,6 +1344,9 @@ Section ModeSpecs.
     destruct (cbc_decrypt_blocks D k (firstn 16 pre) (skipn 16 pre)). exact IH.
   Qed.
 
+  Lemma skipn_app_plus {A} (a b : list A) k : skipn (length a + k) (a ++ b) = skipn k b.
+  Proof. induction a as [|x a IH]; [reflexivity|]. cbn [length Nat.add app skipn]. exact IH. Qed.
+
   Theorem cbc_padding_decrypt_eq_spec iv c : length iv = 16 ->
     cbc_padding_decrypt D iv c = cbc_pad_dec_spec D iv c.
   Proof.
@@ -1381,6 +1386,49 @@ Section ModeSpecs.
     rewrite app_length, Hblock.
     replace (length o1 + 16 - N.to_nat (nth 15 block 0%N)) with (length o1 + (16 - N.to_nat (nth 15 block 0%N))) by lia.
     rewrite firstn_app_2. reflexivity.
+  Qed.
+
+  Theorem sm4_cbc_padding_decrypt_eq_spec iv c : length iv = 16 ->
+    sm4_cbc_padding_decrypt D iv c = cbc_pad_dec_spec_strict D iv c.
+  Proof.
+    intros Hiv. unfold sm4_cbc_padding_decrypt, cbc_pad_dec_spec_strict.
+    destruct (length c =? 0) eqn:H0; [reflexivity|]. cbn [orb].
+    destruct (length c mod 16 =? 0) eqn:Hmod; cbn [negb orb]; [|reflexivity].
+    apply Nat.eqb_neq in H0. apply Nat.eqb_eq in Hmod.
+    pose proof (Nat.div_mod (length c) 16 ltac:(lia)) as Hd. rewrite Hmod in Hd.
+    set (q := length c / 16) in *. assert (Hq : 1 <= q) by lia.
+    replace (length c <? 16) with false by lia.
+    set (k := q - 1). assert (Hk : q = k + 1) by lia.
+    set (pre := firstn (k * 16) c). set (lastb := skipn (k * 16) c).
+    assert (Hpre : length pre = k * 16) by (unfold pre; rewrite firstn_length_le; lia).
+    assert (Hlb : length lastb = 1 * 16) by (unfold lastb; rewrite skipn_length; lia).
+    assert (Hc : c = pre ++ lastb) by (unfold pre, lastb; rewrite firstn_skipn; reflexivity).
+    replace (length c - 16) with (k * 16) by lia. fold lastb.
+    rewrite <- (cbc_dec_blocks_spec (k + 1)) by lia.
+    rewrite (cbc_dec_blocks_bloop D (k + 1)). rewrite Hc at 3.
+    rewrite (bloop_app _ 16 (cbc_dec_step D) lt_0_16 k 1 iv pre lastb Hpre).
+    rewrite <- !cbc_dec_blocks_bloop.
+    assert (Hfirst : (if 16 <? length c then cbc_decrypt_blocks D k iv c else (iv, [])) = cbc_decrypt_blocks D k iv pre).
+    { destruct (16 <? length c) eqn:Hlt.
+      - rewrite Hc at 1. rewrite cbc_dec_blocks_bloop, bloop_prefix by lia. rewrite <- cbc_dec_blocks_bloop. reflexivity.
+      - assert (k = 0) by (apply Nat.ltb_ge in Hlt; lia). rewrite H. reflexivity. }
+    rewrite Hfirst.
+    assert (Hst : length (fst (cbc_decrypt_blocks D k iv pre)) = 16).
+    { apply cbc_dec_state_len; assumption. }
+    destruct (cbc_decrypt_blocks D k iv pre) as [iv1 o1]. cbn [fst] in Hst.
+    cbn [cbc_decrypt_blocks bloop]. unfold cbc_dec_step. rewrite (firstn_all2 lastb) by lia.
+    set (block := xor_bytes (D lastb) iv1).
+    assert (Hblock : length block = 16) by (unfold block; rewrite xor_bytes_length, D_len, Hst; reflexivity).
+    rewrite app_nil_r. cbn [snd]. unfold pkcs7_unpad_strict.
+    rewrite (last_app_block o1 block Hblock).
+    destruct ((nth 15 block 0 <? 1)%N || (16 <? nth 15 block 0)%N) eqn:Hp; [reflexivity|].
+    apply orb_false_iff in Hp. destruct Hp as [Hp1 Hp2].
+    apply N.ltb_ge in Hp1, Hp2.
+    rewrite app_length, Hblock.
+    replace (length o1 + 16 <? N.to_nat (nth 15 block 0%N)) with false by lia.
+    replace (length o1 + 16 - N.to_nat (nth 15 block 0%N)) with (length o1 + (16 - N.to_nat (nth 15 block 0%N))) by lia.
+    rewrite skipn_app_plus, firstn_app_2. unfold pad_bytes_ok.
+    destruct (forallb _ _); reflexivity.
   Qed.
 
   Lemma pkcs7_unpad_pad m : pkcs7_unpad (pkcs7_pad m) = Some m.
@@ -1432,6 +1480,63 @@ Section ModeSpecs.
     replace ((k + 1) * 16 =? 0) with false by lia.
     replace (((k + 1) * 16) mod 16 =? 0) with true by lia. cbn [orb negb].
     apply pkcs7_unpad_pad.
+  Qed.
+
+  Lemma forallb_repeat (v : N) n : forallb (fun b => (b =? v)%N) (repeat v n) = true.
+  Proof. induction n as [|n IH]; [reflexivity|]. cbn [repeat forallb]. rewrite N.eqb_refl, IH. reflexivity. Qed.
+  Lemma forallb_eq_repeat (v : N) l : forallb (fun b => (b =? v)%N) l = true -> l = repeat v (length l).
+  Proof.
+    induction l as [|x l IH]; intros H; [reflexivity|]. cbn [forallb] in H. apply andb_true_iff in H.
+    destruct H as [Hx Hl]. apply N.eqb_eq in Hx. subst x. cbn [length repeat]. rewrite <- IH by exact Hl. reflexivity.
+  Qed.
+  Lemma last_pad m p : 1 <= p -> last (m ++ repeat (N.of_nat p) p) 0%N = N.of_nat p.
+  Proof.
+    intros Hp. destruct p as [|p']; [lia|]. replace (S p') with (p' + 1) at 2 by lia.
+    rewrite repeat_app, app_assoc. cbn [repeat]. apply last_last.
+  Qed.
+
+  (* strict removal accepts exactly the strings  m || p^p  with 1 <= p <= 16 *)
+  Theorem pkcs7_unpad_strict_iff P m :
+    pkcs7_unpad_strict P = Some m <-> exists p, 1 <= p <= 16 /\ P = m ++ repeat (N.of_nat p) p.
+  Proof.
+    unfold pkcs7_unpad_strict. split.
+    - set (pn := last P 0%N).
+      destruct ((pn <? 1)%N || (16 <? pn)%N) eqn:Hr; [discriminate|].
+      destruct (length P <? N.to_nat pn) eqn:Hl; [discriminate|].
+      destruct (forallb (fun b => (b =? pn)%N) (skipn (length P - N.to_nat pn) P)) eqn:Hf; cbn [negb]; [|discriminate].
+      intros H. injection H as <-.
+      apply orb_false_iff in Hr. destruct Hr as [H1 H2]. apply N.ltb_ge in H1, H2. apply Nat.ltb_ge in Hl.
+      exists (N.to_nat pn). split; [lia|]. rewrite N2Nat.id.
+      apply forallb_eq_repeat in Hf. rewrite skipn_length in Hf.
+      replace (length P - (length P - N.to_nat pn)) with (N.to_nat pn) in Hf by lia.
+      rewrite <- Hf. symmetry. apply firstn_skipn.
+    - intros (p & Hp & ->). rewrite last_pad by lia.
+      replace (N.of_nat p <? 1)%N with false by lia. replace (16 <? N.of_nat p)%N with false by lia.
+      cbn [orb]. rewrite Nat2N.id, app_length, repeat_length.
+      replace (length m + p <? p) with false by lia.
+      replace (length m + p - p) with (length m) by lia.
+      rewrite skipn_app_exact, firstn_app_exact by reflexivity. rewrite forallb_repeat. reflexivity.
+  Qed.
+
+  Lemma pkcs7_unpad_strict_pad m : pkcs7_unpad_strict (pkcs7_pad m) = Some m.
+  Proof.
+    apply pkcs7_unpad_strict_iff. exists (16 - length m mod 16). split; [|reflexivity].
+    pose proof (Nat.mod_upper_bound (length m) 16 ltac:(lia)). lia.
+  Qed.
+
+  Theorem sm4_cbc_dec_enc iv m : length iv = 16 -> bytes_ok iv = true -> bytes_ok m = true ->
+    sm4_cbc_padding_decrypt D iv (cbc_padding_encrypt E iv m) = Some m.
+  Proof.
+    intros Liv Oiv Om.
+    rewrite cbc_padding_encrypt_eq_spec, sm4_cbc_padding_decrypt_eq_spec by exact Liv.
+    unfold cbc_pad_enc_spec, cbc_pad_dec_spec_strict.
+    destruct (pkcs7_pad_length m) as (k & Hk & _).
+    destruct (cbc_chain_invert iv (pkcs7_pad m) (conj Liv Oiv)) as (Hl & Hinv).
+    { apply (segs_Forall_exact 16 (k + 1)); [lia | exact Hk | apply pkcs7_pad_ok, Om]. }
+    rewrite Hl, Hk, Hinv.
+    replace ((k + 1) * 16 =? 0) with false by lia.
+    replace (((k + 1) * 16) mod 16 =? 0) with true by lia. cbn [orb negb].
+    apply pkcs7_unpad_strict_pad.
   Qed.
 
   (* ------------------------------------------------------------------ CTR / CTR32 *)
@@ -2102,3 +2207,13 @@ Section CbcMacProofs.
     apply (cbc_mac_bytes_spec (length (concat chunks))); [lia | reflexivity].
   Qed.
 End CbcMacProofs.
+
+(* Before 75d04f0 sm4_cbc_padding_decrypt looked at the last byte only (the rule that
+   aes_cbc_padding_decrypt still has): a final block ending .. 05 02 was accepted as two bytes
+   of padding; PKCS#7 proper refuses it.  (D = identity, iv = 0 make the block the plaintext.) *)
+Example sm4_cbc_padding_before_75d04f0 :
+  let blk := zeros 14 ++ [5%N; 2%N] in
+  cbc_padding_decrypt (fun b => b) (zeros 16) blk = Some (zeros 14) /\
+  sm4_cbc_padding_decrypt (fun b => b) (zeros 16) blk = None /\
+  pkcs7_unpad blk = Some (zeros 14) /\ pkcs7_unpad_strict blk = None.
+Proof. vm_compute. repeat split; reflexivity. Qed.
